@@ -44,6 +44,7 @@ type Solver struct {
 	Time      time.Duration
 	Errors    int
 	HardTimeouts int
+	OneShots  int
 	cache     map[string]cached
 	CacheHits int
 }
@@ -183,9 +184,12 @@ func (s *Solver) Check(terms []*Term, wantModel bool) (Result, *Model, error) {
 			s.Time += time.Since(t0)
 			if killed {
 				s.HardTimeouts++
-				dumpSlow(body, time.Since(t0), Unknown)
-				s.cache[key] = cached{Unknown, nil}
-				return Unknown, nil, nil
+				r1, m1 := s.oneShot(body, p, wantModel)
+				s.OneShots++
+				s.Time += time.Since(t0)
+				dumpSlow(body, time.Since(t0), r1)
+				s.cache[key] = cached{r1, m1}
+				return r1, m1, nil
 			}
 			return Unknown, nil, fmt.Errorf("solver died: %v (%s)", e, line)
 		}
@@ -242,12 +246,74 @@ func (s *Solver) Check(terms []*Term, wantModel bool) (Result, *Model, error) {
 		}
 	}
 	io.WriteString(s.in, "(pop)\n")
+	if res == Unknown && err == nil {
+		// the incremental core gave up: ask a fresh, non-incremental process (tactic-based
+		// solver; decides many nonlinear queries the incremental core does not)
+		wd.Stop()
+		res, m = s.oneShot(body, p, wantModel)
+		s.OneShots++
+	}
 	s.Time += time.Since(t0)
 	dumpSlow(body, time.Since(t0), res)
 	if err == nil {
 		s.cache[key] = cached{res, m}
 	}
 	return res, m, err
+}
+
+// oneShot decides body in a fresh solver process without push/pop.
+func (s *Solver) oneShot(body string, p *Printer, wantModel bool) (Result, *Model) {
+	var q strings.Builder
+	q.WriteString(body)
+	q.WriteString("(check-sat)\n")
+	vars := p.SortedVars()
+	if wantModel && len(vars) > 0 {
+		q.WriteString("(get-value (")
+		for _, v := range vars {
+			q.WriteString(v.Name)
+			q.WriteByte(' ')
+		}
+		q.WriteString("))\n")
+	}
+	cmd := exec.Command(s.Path, "-in", fmt.Sprintf("-t:%d", s.TimeoutMS))
+	cmd.Stdin = strings.NewReader(q.String())
+	done := make(chan struct{})
+	var out []byte
+	go func() {
+		out, _ = cmd.CombinedOutput()
+		close(done)
+	}()
+	select {
+	case <-done:
+	case <-time.After(time.Duration(s.TimeoutMS)*time.Millisecond + 3*time.Second):
+		if cmd.Process != nil {
+			cmd.Process.Kill()
+		}
+		<-done
+		return Unknown, nil
+	}
+	txt := strings.TrimSpace(string(out))
+	if strings.Contains(txt, "(error") {
+		return Unknown, nil
+	}
+	switch {
+	case strings.HasPrefix(txt, "unsat"):
+		return Unsat, nil
+	case strings.HasPrefix(txt, "sat"):
+		if !wantModel {
+			return Sat, nil
+		}
+		if len(vars) == 0 {
+			return Sat, &Model{}
+		}
+		rest := strings.TrimSpace(txt[3:])
+		m, e := parseModel(rest, vars)
+		if e != nil {
+			return Unknown, nil
+		}
+		return Sat, m
+	}
+	return Unknown, nil
 }
 
 // ---- model parsing ----
